@@ -55,5 +55,27 @@ int main(int argc, char** argv)
         if (ec || y != len) VX_REPRO("read_uint64(write(..)) = " << y << " != " << len);
         VX_NOREPRO("head ok");
     }
+    if (h == "write_bignum_head" || h == "write_uint64_value" || h == "write_int64_value") {
+        // big numbers of every magnitude length around the head-width boundaries, both signs: head must be tag 2/3 + preferred byte-string head, and decode back
+        std::vector<size_t> lens; for (size_t l = 9; l <= 40; ++l) lens.push_back(l); for (size_t l : {255u, 256u, 257u, 300u}) lens.push_back(l);
+        if (in.has("vx_len") && in.u64("vx_len") >= 9 && in.u64("vx_len") <= 2000) lens.push_back((size_t)in.u64("vx_len"));
+        for (size_t l : lens) for (int neg = 0; neg < 2; ++neg) {
+            bigint n(1); n <<= (int)(8 * l - 1); if (neg) n = -n;
+            std::string text; n.write_string(text);
+            json j(text, semantic_tag::bigint);
+            std::vector<uint8_t> out; cbor::encode_cbor(j, out);
+            uint8_t exp[9]; int k = spec_cbor_head(2, l, exp);   // (for -2^(8l-1) the magnitude of -1-n is 2^(8l-1)-1: also l bytes)
+            if (out.size() < 1 + (size_t)k || out[0] != (neg ? 0xc3 : 0xc2) || std::memcmp(out.data() + 1, exp, k) != 0)
+                VX_REPRO("big number with " << l << " magnitude bytes: head is not tag " << (neg ? 3 : 2) << " + RFC 8949 preferred byte-string head");
+            try { json back = cbor::decode_cbor<json>(out); if (back.as<std::string>() != text) VX_REPRO("big number with " << l << " magnitude bytes does not decode back"); }
+            catch (const std::exception& e) { VX_REPRO("big number with " << l << " magnitude bytes cannot be decoded: " << e.what()); }
+        }
+        for (uint64_t v : {0ull, 23ull, 24ull, 255ull, 256ull, 65535ull, 65536ull, 4294967295ull, 4294967296ull, 18446744073709551615ull}) {
+            std::vector<uint8_t> out; cbor::encode_cbor(json(v), out); uint8_t exp[9]; int k = spec_cbor_head(0, v, exp);
+            if (out.size() != (size_t)k || std::memcmp(out.data(), exp, k) != 0) VX_REPRO("unsigned " << v << " not written in preferred form");
+            if (v <= (uint64_t)INT64_MAX) { int64_t s = -1 - (int64_t)v; std::vector<uint8_t> o2; cbor::encode_cbor(json(s), o2); int k2 = spec_cbor_head(1, v, exp); if (o2.size() != (size_t)k2 || std::memcmp(o2.data(), exp, k2) != 0) VX_REPRO("negative " << s << " not written in preferred form"); }
+        }
+        VX_NOREPRO("integers and big numbers are written with RFC 8949 preferred heads and decode back");
+    }
     VX_NOREPRO("harness " << h << " has no replay");
 }
